@@ -557,6 +557,13 @@ func (ss *ServerSession) run() {
 		ss.setuppedStream.readerRemove(ss)
 	}
 
+	// stop the medias before taking propsMutex: removing a UDP registration waits for the packet
+	// callback in progress on the listener, and that callback may call accessors of the session
+	// (State, Stats, ...), which need propsMutex.
+	for _, sm := range ss.setuppedMedias {
+		sm.stop()
+	}
+
 	ss.propsMutex.Lock()
 
 	for _, sm := range ss.setuppedMedias {
